@@ -26,3 +26,10 @@ package jwsutil
 
 // package-level error value: set once by the initialiser, never reassigned
 //@ global invariant [errInvalidKey] ErrInvalidKey != nil
+
+// C16 / C20: an Ed25519 public key is taken from the JWK through a private round trip of the
+// key's JSON text; the JWK handed in is only read, and a key that comes back has the full size
+//@ func GetED25519PublicKey(jwk) (key, err)
+//@   requires jwk != nil
+//@   modifies nothing
+//@   ensures [size] err == nil ==> len(key) == 32
